@@ -378,9 +378,82 @@ class Interp:
         return v
 
     def assign(self, st, sym, lin, unknown=False, taint=None):
+        self.drop_char_facts(st, sym)
         st.each(lambda d: assign_lin(d, sym, lin, unknown=unknown, taint=taint))
 
+    # ---- character facts: `S[p + c] == ch` / `!=` decided by a condition, kept as a partition key "c|<S>|<p>|<c>|<ch>" -> 1/0
+    # (the state is split like on a boolean local). A fact dies as soon as p or S is written.
+    def drop_char_facts(self, st, sym):
+        names = {b for k in st.parts for b, _ in k if isinstance(b, str) and b.startswith("c|")}
+        if not names:
+            return
+        path = sym[4:-1] if sym.startswith("len(") and sym.endswith(")") else None
+        for b in names:
+            _, sp, sy, _, _ = b.split("|")
+            if sy == sym or (path is not None and sp == path) or sp == sym:
+                st.drop_bool(b)
+
+    @staticmethod
+    def char_const(n):
+        n = skip_copies(n)
+        for _ in range(4):
+            if not isinstance(n, dict):
+                return None
+            if n.get("k") in ("char", "int"):
+                return n.get("v")
+            if "cv" in n and n.get("k") not in ("call",):
+                return n["cv"]
+            if n.get("k") in ("construct", "cast") and (n.get("e") or (n.get("args") and len(n["args"]) == 1)):
+                n = skip_copies(n.get("e") or n["args"][0])
+                continue
+            return None
+        return None
+
+    def char_atom(self, n, st):
+        """name of the fact `S[p+c] == ch` for a comparison node (== / !=), with its polarity; None if it is not one"""
+        n = skip_copies(n)
+        if not isinstance(n, dict):
+            return None
+        if n.get("k") == "call" and n.get("ck") == "operator" and n.get("op") in ("==", "!=") and len(n.get("args", [])) == 2:
+            a, b, op = n["args"][0], n["args"][1], n["op"]
+        elif n.get("k") == "binop" and n.get("op") in ("==", "!="):
+            a, b, op = n.get("lhs"), n.get("rhs"), n["op"]
+        else:
+            return None
+        for x, y in ((a, b), (b, a)):
+            ch = self.char_const(y)
+            if ch is None:
+                continue
+            e = skip_copies(x)
+            for _ in range(4):
+                if isinstance(e, dict) and e.get("k") in ("construct", "cast") and (e.get("e") or (e.get("args") and len(e["args"]) == 1)):
+                    e = skip_copies(e.get("e") or e["args"][0])
+                elif isinstance(e, dict) and e.get("k") == "call" and e.get("ck") == "member" and (e.get("callee") or "").split("::")[-1] in ("unicode", "toLatin1", "cell", "operator QChar", "operator char") and not e.get("args"):
+                    e = skip_copies(e.get("obj"))
+                else:
+                    break
+            cont = idx = None
+            if isinstance(e, dict) and e.get("k") == "call" and e.get("op") == "[]" and len(e.get("args", [])) == 2:
+                cont, idx = e["args"]
+            elif isinstance(e, dict) and e.get("k") == "call" and e.get("ck") == "member" and (e.get("callee") or "").split("::")[-1] in ("at", "operator[]") and len(e.get("args", [])) == 1:
+                cont, idx = e.get("obj"), e["args"][0]
+            elif isinstance(e, dict) and e.get("k") == "subscript":
+                cont, idx = e.get("base"), e.get("idx")
+            if cont is None or not is_container_type(typ(cont)):
+                continue
+            path = self.lvalue_path(cont)
+            if path is None:
+                continue
+            iv = self.eval(idx, st.copy())
+            sg = iv.single() if iv is not None else None
+            if sg is None or "|" in sg[0] or "|" in path:
+                continue
+            return "c|%s|%s|%d|%d" % (path, sg[0], sg[1], ch), op == "=="
+        return None
+
     def havoc_len(self, st, lsym, mx=QSTRING_MAX):
+        self.drop_char_facts(st, lsym)
+
         def f(d):
             d.forget(lsym)
             d.ensure(lsym)
@@ -1032,6 +1105,7 @@ class Interp:
         return self.call_result(n, st) if is_int_type(typ(n)) else None
 
     def grow_len(self, st, ls):
+        self.drop_char_facts(st, ls)
         """len := some value >= len"""
         def f(d):
             if not d.has(ls):
@@ -1119,7 +1193,26 @@ class Interp:
                     impls.append((g, sg[1]))
                     impls.append((sg[0], sg[1]))
 
-            def f(d):
+            needle = const_str(args[0])
+            if needle is None and self.char_const(args[0]) is not None:
+                needle = chr(self.char_const(args[0]))
+            opath = self.lvalue_path(obj)
+            fsg = frm.single() if frm is not None else None
+
+            def no_match_at_start(key, d):
+                """the needle cannot occur at position `from` in this partition: it does not fit, or a character is known to differ"""
+                if last or not needle or frm is None:
+                    return False
+                if ls and lin_lower(d, frm.add(Lin.sym(ls), -1)) >= 1 - len(needle):
+                    return True          # from + |needle| > size
+                if opath is not None and fsg is not None:
+                    for j, chx in enumerate(needle):
+                        if ("c|%s|%s|%d|%d" % (opath, fsg[0], fsg[1] + j, ord(chx)), 0) in key:
+                            return True
+                return False
+
+            def f(key, d):
+                strict = 1 if no_match_at_start(key, d) else 0
                 d.assign_top(r)
                 d.add_lower(r, -1)
                 if ls:
@@ -1132,9 +1225,12 @@ class Interp:
                             refine(d, Lin.sym(r), "<=", frm)
                     elif flo >= 0:
                         for sy, off in impls:
-                            d.impl.append((r, sy, r, -off))
+                            d.impl.append((r, sy, r, -off - strict))
                         d._apply_impl()
-            st.each(f)
+            for key, d in list(st.parts.items()):
+                if not d.bottom:
+                    f(key, d)
+            st.prune()
             return Lin.sym(r)
         if m in ("startsWith", "endsWith", "contains", "compare", "isNull", "isEmpty"):
             for a in args:
@@ -1149,6 +1245,7 @@ class Interp:
             return self.call_result(n, st)
         # ---- mutators
         if n.get("constm") is False and ls is not None:
+            self.drop_char_facts(st, ls)
             vals = [self.eval(a, st) for a in args]
             if m == "clear":
                 self.assign(st, ls, Lin.const(0))
@@ -1345,6 +1442,14 @@ class Interp:
             t1, f1 = self.cond(n.get("lhs"), st)
             t2, f2 = self.cond(n.get("rhs"), f1)
             return t1.join(t2), f2
+        ca = self.char_atom(n, st) if k in ("binop", "call") and n.get("op") in ("==", "!=") else None
+        if ca is not None:
+            s = st.copy()
+            for sub in (n.get("args") or [n.get("lhs"), n.get("rhs")]):     # the element access itself is an obligation
+                if isinstance(sub, dict):
+                    self.eval(sub, s)
+            t, f = s.split_bool(ca[0])
+            return (t, f) if ca[1] else (f, t)
         if k == "binop" and n.get("op") in ("<", ">", "<=", ">=", "==", "!="):
             s = st.copy()
             lt, rt = typ(n.get("lhs")), typ(n.get("rhs"))
@@ -1915,7 +2020,14 @@ class Interp:
             if any(s in d.unk for s, _ in cands for d in bd):
                 self.ob("term", n, None, "%s: progress of {%s} depends on a value the analysis does not model; no ranking function can be formed" % (what, tried), key)
                 return
-            self.ob("term", n, False, "%s: no ranking function — none of {%s} makes bounded strict progress on every path back to the loop head" % (what, tried), key)
+            # a definite verdict needs a definite witness: a path back to the loop head on which every tracked quantity is provably
+            # unchanged (the iteration repeats itself). Weak progress (x' >= x without x' > x) is only "not proved": the equal case
+            # may be excluded by a fact outside the domain (a character test on the text, say)
+            stuck = [d for d in bd if all(d.get(g, s) <= 0 and d.get(s, g) <= 0 for s, g in cands)]
+            if stuck:
+                self.ob("term", n, False, "%s: no ranking function — on a path back to the loop head none of {%s} changes at all: the iteration repeats itself" % (what, tried), key)
+            else:
+                self.ob("term", n, None, "%s: no ranking function found — none of {%s} is proved to make bounded strict progress on every path back to the loop head (some only weakly: x' >= x)" % (what, tried), key)
             return
         desc = " then ".join("%s %s bounded by %s" % (self.names.get(r[0], r[0]), "increases" if r[2] else "decreases", "0" if r[3] == Z else self.names.get(r[3], r[3])) for r in chosen)
         self.ob("term", n, True, "%s: ranking function %s" % (what, desc), key)
